@@ -26,7 +26,7 @@ RULE = (
     '(dimensions 1-3, z_ion 1-3, n_parts, max_dist) / drop + liveness check / drop-and-recreate at the same address / '
     'explicit gc.collect; schedule dimension = gc disabled, gc threshold (1,1,1) or default; every tenth history '
     'creates more live objects than the cache size (128) to force evictions.  Oracle: uncached recomputation via '
-    'method.__wrapped__ on the same object + reference values of a pristine twin object built from the same data.  '
+    'method.__wrapped__ on the same object + reference values of a pristine twin object rebuilt from the raw arrays (it shares no trajectory, metadata dict, site structure or Transitions with the pool).  '
     'Non-trivial = the history achieved at least one address reuse and one cache hit; distinct = the step sequence.'
 )
 ASSUMPTIONS = [
@@ -138,6 +138,12 @@ def call_plan(kind, rng):
     return opts[int(rng.integers(len(opts)))]
 
 
+def _every_second(transitions, minimal_residence=0):
+    from gemdat.jumps import _generic_transitions_to_jumps as conv
+
+    return conv(transitions, minimal_residence=minimal_residence).iloc[::2].reset_index(drop=True)
+
+
 class Template:
     def __init__(self, rng):
         for _ in range(30):
@@ -174,6 +180,20 @@ class Template:
 
         return TrajectoryMetrics(self.derive(self.sys.trajectory(), kind))
 
+    def pristine(self, kind):
+        """The same kind of analysis object rebuilt from the raw arrays: it shares no trajectory, site
+        structure, metadata dict or Transitions object with anything in the pool."""
+        from gemdat.jumps import Jumps
+
+        if kind.startswith('metrics'):
+            return self.pristine_metrics(kind)
+        tr = self.sys.transitions(traj=self.sys.trajectory())
+        if kind == 'transitions':
+            return tr
+        if kind == 'jumps_alt':
+            return Jumps(tr, conversion_method=_every_second)
+        return Jumps(tr)
+
     def make(self, kind):
         from gemdat.jumps import Jumps
         from gemdat.metrics import TrajectoryMetrics
@@ -187,12 +207,7 @@ class Template:
         if kind == 'jumps_alt':
             # another Jumps object built on the SAME Transitions object as 'jumps_shared', with its own
             # conversion method (it reports only every second jump)
-            from gemdat.jumps import _generic_transitions_to_jumps as conv
-
-            def every_second(transitions, minimal_residence=0):
-                return conv(transitions, minimal_residence=minimal_residence).iloc[::2].reset_index(drop=True)
-
-            return Jumps(self.shared_tr, conversion_method=every_second)
+            return Jumps(self.shared_tr, conversion_method=_every_second)
         if kind == 'jumps_shared':
             return Jumps(self.shared_tr)
         return Jumps(tr)
@@ -279,7 +294,7 @@ def run_unit(unit, rng, ctx):
                 ent[3] = True
             v = invoke(obj, name, args, kwargs)
             w = invoke(obj, name, args, kwargs, wrapped=True)
-            twin = templates[k].pristine_metrics(kind) if kind.startswith('metrics') else templates[k].make(kind)
+            twin = templates[k].pristine(kind)
             r = invoke(twin, name, args, kwargs, wrapped=True)
             hist.append(f'call {kind}#{k}.{name}{args}{kwargs}')
             same_obj = equal(v, w)
